@@ -70,6 +70,18 @@ func init() {
 				}
 			}
 		}
+		// whole sentences through the generated lexer into the generated parser
+		if sents, ok := it.Extra["sentences"].([]any); ok && im.NewParser != nil && im.NewLexer != nil {
+			for _, s := range sents {
+				src := []byte(fmt.Sprint(s))
+				res := im.NewParser().ParseSrc(src, &rt.Recorder{})
+				st.add("sentences_lexed_and_parsed", 1)
+				if res.Err != nil || res.Panic != "" || res.Budget || res.ErrOther != "" {
+					st.violation("C10", it.ID+" sentence "+string(src), fmt.Sprintf("the sentence %q, tokenised by the generated lexer, is refused by the generated parser (panic=%q): the numbers the lexer emits are not the columns of the parser's tables", src, res.Panic), map[string]any{"source": string(src)})
+					break
+				}
+			}
+		}
 		st.sample(map[string]any{"grammar": it.Text, "typeMap": it.Tok.TypeMap})
 	}
 }
